@@ -908,10 +908,20 @@ pub fn probe_emit(a: &Args) {
     // ---- good crate: curated definitions through the real derive (must compile), plus logos-cli style outputs
     let mut good = String::from("#![allow(warnings)]\n");
     let mut gindex = vec![];
+    let mut dispatch = String::new();
     for (n, (name, spec, _)) in vcore::curated::curated().into_iter().enumerate() {
-        let _ = writeln!(good, "pub mod g{n} {{\n    use logos::Logos;\n    {}\n}}", spec.render("T", "Logos, Debug, Clone, Copy, PartialEq").replace('\n', "\n    "));
-        gindex.push(json!({"n": n, "name": name}));
+        let arms: Vec<String> = (0..spec.pats.len()).filter(|i| spec.pats[*i].kind != vcore::spec::Kind::Skip).map(|i| format!("T::V{i} => {i}")).collect();
+        let src_expr = if spec.utf8 { "match std::str::from_utf8(input) { Ok(s) => s, Err(_) => return vec![(-2, 0, 0)] }" } else { "input" };
+        let _ = writeln!(
+            good,
+            "pub mod g{n} {{\n    use logos::Logos;\n    {}\n    pub fn run(input: &[u8]) -> Vec<(i32, usize, usize)> {{\n        let src = {src_expr};\n        let mut lex = T::lexer(src);\n        let mut v = vec![];\n        while let Some(r) = lex.next() {{\n            let sp = lex.span();\n            v.push((match r {{ Ok(t) => (match t {{ {} }}) as i32, Err(_) => -1 }}, sp.start, sp.end));\n            if v.len() > input.len() + 2 {{ break; }}\n        }}\n        v\n    }}\n}}",
+            spec.render("T", "Logos, Debug, Clone, Copy, PartialEq").replace('\n', "\n    "),
+            arms.join(", ")
+        );
+        let _ = writeln!(dispatch, "        {n} => g{n}::run(input),");
+        gindex.push(json!({"n": n, "name": name, "spec": spec}));
     }
+    let _ = writeln!(good, "pub fn run(n: usize, input: &[u8]) -> Vec<(i32, usize, usize)> {{\n    match n {{\n{dispatch}        _ => vec![],\n    }}\n}}");
     // valid definitions with callbacks / extras / error types / generics
     let extras = [
         "#[derive(Logos, Debug, PartialEq)] #[logos(extras = u32, error = String)] pub enum T<'s> { #[regex(\"[a-z]+\", |lex| { lex.extras += 1; lex.slice() })] W(&'s str), #[regex(\"[0-9]+\", |lex| lex.slice().parse().map_err(|_| String::from(\"bad\")))] N(u64), #[token(\" \", logos::skip)] S }",
